@@ -4,6 +4,9 @@ import Splipy.Lemmas.C07Periodic
 import Splipy.Lemmas.C07Subdivide
 import Splipy.Lemmas.C07SplitPer
 import Splipy.Lemmas.C07Mult
+import Splipy.Lemmas.C07OpenEval
+import Splipy.Lemmas.C07SplitAppend
+import Splipy.Lemmas.C10Ctor
 import Mathlib.Data.Rat.Floor
 import Mathlib.Tactic.NormNum
 import Mathlib.Tactic.IntervalCases
@@ -11,14 +14,28 @@ import Mathlib.Tactic.IntervalCases
 /-!
 # Property C07: splitting yields exact restrictions tiling the object; appending re-joins them
 
-Curve level (an object is split fibre-wise: the same knot slice and the same slice of the control
-net along the split direction for every fibre, `Tensor.sliceAxis`).
+Two layers.
 
-`b` is the basis of the clone after the insertion loop of `split`, `c` one fibre of its control
-points; `b.piece lo hi` is the basis `BSplineBasis(p, b.knots[lo : hi+p])` the code builds for the
-control points `lo .. hi-1` (`Basis.mk?` is the model of the constructor).  The spline before the
-insertions is `D0`; the insertion loop is a sequence of Boehm insertions (`SplineData.Legal`,
-lemma L6), which is the statement of property C04 for `insert_knot`.
+* **Model level** — statements about the functions the driver runs (`Model/Split.lean`):
+  `C07_split_open_obj` (`Obj.split`, non-periodic direction, any number of split values, curves /
+  surfaces / volumes: number of pieces, well-formedness, domains, values and all derivatives),
+  `C07_piece_evaluate_curve` (the pieces under `Obj.evaluate`), `C07_append_obj`
+  (`Obj.appendCurve` is the concatenation), `C07_split_append_curve` (split, then append, is the
+  original map), `C07_split_periodic_partial` (`Obj.split` of a periodic direction at one value).
+  Multiplicities, insertion legality, slice indices and constructor acceptance are all derived from
+  the model's loops there, not assumed.
+* **Specification level** — statements about knot sequences and coefficient functions, used by the
+  model-level proofs and kept as theorems of their own: `C07_split_open`, `C07_split_tiles`,
+  `C07_split_periodic_pieces`, `C07_append_partial`, and the index arithmetic `C07_subdivide`.
+  In these, `b` is the basis of the clone after the insertion loop of `split`, `c` one fibre of its
+  control points; `b.piece lo hi` is the basis `BSplineBasis(p, b.knots[lo : hi+p])` the code builds
+  for the control points `lo .. hi-1` (`Basis.mk?` is the model of the constructor); the spline
+  before the insertions is `D0` and the insertion loop a sequence of Boehm insertions
+  (`SplineData.Legal`, lemma L6).
+
+An object is split fibre-wise: the same knot slice and the same slice of the control net along the
+split direction for every fibre (`Tensor.sliceAxis`).  Every theorem has a concrete instance of its
+hypotheses in the section "Non-vacuity" (kernel-evaluated where a model function is involved).
 -/
 
 open Splipy
@@ -31,7 +48,8 @@ with a non-empty parameter interval the constructor accepts the knot slice, the 
 non-periodic basis with `hi - lo` functions and domain `[kn (lo+p-1), kn hi]`, and on this domain
 (right-continuous version on `[·,·)`, left-continuous on `(·,·]`: the inward side at both ends) the
 piece with the control points `c lo … c (hi-1)` has the value and all derivatives of the ORIGINAL
-spline. -/
+spline.  (Specification level: `hlegal`, `hins` and the index conditions are hypotheses here; for the
+model's `Obj.split` they are proved in `C07_split_open_obj`.) -/
 theorem C07_split_open {b : Basis K} (hv : b.Valid) (c : ℕ → K)
     (D0 : SplineData K) (hD0 : Monotone D0.τ) (steps : List (ℕ × K))
     (hlegal : SplineData.Legal (b.order - 1) D0 steps)
@@ -72,6 +90,48 @@ theorem C07_split_tiles {b : Basis K} (hv : b.Valid) (lo mid hi : ℕ)
   · rw [b.piece_stop lo mid hp (by omega) h1, b.piece_start mid hi hp hsz h2, hmult]
   · rw [b.piece_start 0 mid hp (by omega) (Nat.zero_le _), Nat.zero_add]; rfl
   · rw [b.piece_stop mid b.nAll hp (by have := hv.nAll_add; omega) (by omega)]; rfl
+
+/-- **Split, non-periodic direction — the model's `Obj.split`** (the function the driver runs;
+curves, surfaces, volumes).  `o` well formed, `dir` a non-periodic direction, `tol > 0`, the split
+values `ks` strictly increasing, strictly inside the domain and exact for the tolerance
+(`SplitOK`: no knot other than copies of the value lies within `tol` of it).  Then
+`o.split tol ks dir = .ok (.many ps)` with `ps.length = ks.length + 1`, and the pieces correspond
+one-to-one (`List.Forall₂`) to the consecutive sub-intervals
+`[start, k₁], [k₁, k₂], …, [k_m, end]` (`ivalsAll`): each piece `pc` (`PieceOK`)
+* is well formed, has the same number of bases, the same bases in the other directions, the same
+  `rational` flag, and along `dir` a non-periodic basis of the same order with domain exactly its
+  sub-interval `[lv, hv]` — the domains tile the original domain;
+* evaluates exactly to the original: every control-net fibre of `pc` along `dir` is, for BOTH
+  one-sided versions, ALL derivative orders and every `t` of `[lv, hv]`, the spline of the
+  corresponding fibre of `o`.
+Everything is derived from the model's own loops (`Lemmas/C07OpenInsert.lean`: insertion loop —
+legality, geometry via `C04.insertKnots_fibres`, multiplicity `≥ p` of every split value from
+`continuity` and the permutation of the knots; `Lemmas/C07OpenSplit.lean`: slicing loop —
+`bisect_left` indices, constructor acceptance, `last_cp_i = last_knot_i`). -/
+theorem C07_split_open_obj [FloorRing K] {o : Obj K} (h : o.WellFormed) (dir : ℕ)
+    (hd : dir < o.bases.size) (hper : (o.basis dir).periodic = -1) {tol : K} (htol : 0 < tol)
+    (ks : List K) (hks : SplitOK (o.basis dir) tol ks) (hsorted : ks.Pairwise (· < ·)) :
+    ∃ ps, o.split tol ks dir = .ok (.many ps) ∧ ps.length = ks.length + 1 ∧
+      List.Forall₂ (fun pc iv => PieceOK o dir pc iv.1 iv.2) ps
+        (ivalsAll (o.basis dir).start ks (o.basis dir).stop) := by
+  obtain ⟨ps, h1, h2⟩ := split_open_obj h dir hd hper htol ks hks hsorted
+  exact ⟨ps, h1, by rw [h2.length_eq, ivalsAll_length], h2⟩
+
+/-- **Pieces of a curve and the real evaluator.**  A piece `pc` of a curve `o` on `[lv, hv]`
+(`PieceOK`, as delivered by `C07_split_open_obj`) evaluates with `Obj.evaluate` — the model of
+`SplineObject.evaluate` — to the same tensor as `o` at all admissible parameters of `[lv, hv)`, and
+at `hv` itself when that is the end of the whole domain (at an inner right end the piece returns its
+left limit, the original its right limit). -/
+theorem C07_piece_evaluate_curve [FloorRing K] {o pc : Obj K} {b1 : Basis K} {lv hv : K}
+    (hb : o.bases = #[b1]) (hv1 : b1.Valid) (hper1 : b1.periodic = -1) {nc : ℕ}
+    (hs : o.cps.shape = [b1.numFunctions, nc]) (hnc : o.rational = true → 1 ≤ nc)
+    (hP : PieceOK o 0 pc lv hv) (hhv : hv ≤ b1.stop) {tol : K} (htol : 0 < tol) {us : List K}
+    (hus : ∀ u ∈ us, b1.Admissible tol u) (hus' : ∀ u ∈ us, (pc.basis 0).Admissible tol u)
+    (hin : ∀ u ∈ us, lv ≤ u ∧ (u < hv ∨ (u = hv ∧ hv = b1.stop)))
+    (hneA1 : b1.periodic < 0 → us ≠ [] := by (first | assumption | (simp; done) | skip))
+    (hneA2 : (pc.basis 0).periodic < 0 → us ≠ [] := by (first | assumption | (simp; done) | skip)) :
+    pc.evaluate tol [us] true = o.evaluate tol [us] true :=
+  hP.evaluate_curve hb hv1 hper1 hs hnc hhv htol hus hus' hin
 
 /-- **Split, periodic direction — the model's `Obj.split` at one value** (curves, surfaces,
 volumes; fibre-wise).  `dir` is a valid periodic direction (continuity `k`, `n` functions, order `p`)
@@ -168,7 +228,9 @@ reproduces the map.
 
 `_partial`: equal orders only (differing orders go through `raise_order`, property C05), order
 `≥ 2` (for order 1 the code drops a control point that is not shared: the pinned code does not
-reproduce piecewise constants), clamped ends at the joint. -/
+reproduce piecewise constants), clamped ends at the joint.  Specification level (knot sequences and
+coefficient functions); `C07_append_obj` proves that the model's `Obj.appendCurve` builds exactly
+this merged knot vector and coefficient list. -/
 theorem C07_append_partial (τ1 τ2 : ℕ → K) (h1 : Monotone τ1) (h2 : Monotone τ2) (q n1 n2 : ℕ)
     (hq : 1 ≤ q) (hn1 : 1 ≤ n1) (hn2 : 1 ≤ n2)
     (hc1 : τ1 n1 = τ1 (n1 + q)) (hc2 : τ2 0 = τ2 q) (c1 c2 : ℕ → K) (hc : c1 (n1 - 1) = c2 0)
@@ -186,10 +248,80 @@ theorem C07_append_partial (τ1 τ2 : ℕ → K) (h1 : Monotone τ1) (h2 : Monot
     rw [hc1] at ha
     exact splineVal_append_right τ1 τ2 h1 h2 q n1 hq hn1 hc1 hc2 n2 hn2 c1 c2 hc s t ha
 
+/-- **`Curve.append` — the model function `Obj.appendCurve` the driver runs** (equal orders).
+Two well-formed non-periodic curves `a`, `c` with the same rationality, dimension and order
+`p = q+1 ≥ 2`, `a` clamped at its end and `c` at its start (the last resp. first `p` knots equal),
+and the end point of `a` equal to the start point of `c` in every homogeneous component.  Then
+`a.appendCurve c tol = .ok (some r)` (`tol ≥ 0`) with `r` well formed, non-periodic, of order `p`,
+`n₁ + n₂ - 1` functions, domain `[a.start, a.end + (c.end - c.start)]`, and — component by component —
+`r` IS THE CONCATENATION: the spline of `a` before the joint `a.end`, the spline of `c`
+re-parametrised by the shift `a.end - c.start` from the joint on (both one-sided versions).
+This ties the specification-level `appendKnots`/`appendCoef` of `C07_append_partial` to the model:
+`Lemmas/C07AppendObj.lean` (`mergedBasis`, `mergedData_getD`, `make_splines_compatible` is the identity
+here: `setDimension_self`).  Differing orders go through `raise_order` (C05) and return `none` in
+this model function. -/
+theorem C07_append_obj [FloorRing K] {a c : Obj K} (ha : a.WellFormed) (hc : c.WellFormed)
+    (ha1 : a.bases.size = 1) (hc1 : c.bases.size = 1)
+    (hpa : (a.basis 0).periodic = -1) (hpc : (c.basis 0).periodic = -1)
+    (hrat : c.rational = a.rational) (hdim : c.dimension = a.dimension)
+    (hord : (c.basis 0).order = (a.basis 0).order) (hq : 2 ≤ (a.basis 0).order)
+    (hcl1 : (a.basis 0).kn (a.basis 0).numFunctions
+      = (a.basis 0).kn ((a.basis 0).numFunctions + ((a.basis 0).order - 1)))
+    (hcl2 : (c.basis 0).kn 0 = (c.basis 0).kn ((a.basis 0).order - 1))
+    (hjoint : ∀ i, i < a.ncomp →
+      C04.fibre a 0 0 i ((a.basis 0).numFunctions - 1) = C04.fibre c 0 0 i 0)
+    {tol : K} (htol : 0 ≤ tol) :
+    ∃ r, a.appendCurve c tol = .ok (some r) ∧ r.WellFormed ∧ r.bases.size = 1 ∧
+      (r.basis 0).periodic = -1 ∧ (r.basis 0).order = (a.basis 0).order ∧
+      (r.basis 0).numFunctions = (a.basis 0).numFunctions + (c.basis 0).numFunctions - 1 ∧
+      (r.basis 0).start = (a.basis 0).start ∧
+      (r.basis 0).stop = (a.basis 0).stop + ((c.basis 0).stop - (c.basis 0).start) ∧
+      r.rational = a.rational ∧ r.ncomp = a.ncomp ∧
+      ∀ i, i < a.ncomp → ∀ (s : Side) (t : K),
+        (s.before t (a.basis 0).stop →
+          splineVal s (r.basis 0).kn ((a.basis 0).order - 1) (r.basis 0).numFunctions
+              (C04.fibre r 0 0 i) t
+            = splineVal s (a.basis 0).kn ((a.basis 0).order - 1) (a.basis 0).numFunctions
+                (C04.fibre a 0 0 i) t) ∧
+        (s.after (a.basis 0).stop t →
+          splineVal s (r.basis 0).kn ((a.basis 0).order - 1) (r.basis 0).numFunctions
+              (C04.fibre r 0 0 i) t
+            = splineVal s (c.basis 0).kn ((a.basis 0).order - 1) (c.basis 0).numFunctions
+                (C04.fibre c 0 0 i) (t - ((a.basis 0).stop - (c.basis 0).start))) :=
+  appendCurve_obj ha hc ha1 hc1 hpa hpc hrat hdim hord hq hcl1 hcl2 hjoint htol
+
+/-- **`split` then `append` gives back the original map** (the model functions `Obj.split` and
+`Obj.appendCurve`).  A well-formed non-periodic curve of order `p ≥ 2`, one split value `k` strictly
+inside the domain, exact for the tolerance, and not a `C⁻¹` knot of the original (multiplicity
+`≤ p - 1`: the curve is continuous there).  Then `split` returns two pieces, `append` of the second to
+the first succeeds, and the result is a well-formed curve on the ORIGINAL domain whose spline equals
+the original's in every homogeneous component, at every `t` of the domain, both one-sided versions.
+All side conditions of `C07_append_obj` (clamped ends at the joint, equal end points) are derived:
+the former from the multiplicity `p` the insertion loop establishes, the latter from the continuity
+of the original (kernel lemma L9). -/
+theorem C07_split_append_curve [FloorRing K] {o : Obj K} (h : o.WellFormed)
+    (h1 : o.bases.size = 1) (hper : (o.basis 0).periodic = -1) (hq : 2 ≤ (o.basis 0).order)
+    {tol : K} (htol : 0 < tol) (k : K) (hk : SplitOK (o.basis 0) tol [k])
+    (hcont : (o.basis 0).mult k ≤ (o.basis 0).order - 1) :
+    ∃ p0 p1 r, o.split tol [k] 0 = .ok (.many [p0, p1]) ∧
+      p0.appendCurve p1 tol = .ok (some r) ∧ r.WellFormed ∧ r.bases.size = 1 ∧
+      (r.basis 0).periodic = -1 ∧ (r.basis 0).order = (o.basis 0).order ∧
+      (r.basis 0).start = (o.basis 0).start ∧ (r.basis 0).stop = (o.basis 0).stop ∧
+      r.rational = o.rational ∧ r.ncomp = o.ncomp ∧
+      ∀ i, i < o.ncomp → ∀ (s : Side) (t : K), s.mem (o.basis 0).start (o.basis 0).stop t →
+        splineVal s (r.basis 0).kn ((o.basis 0).order - 1) (r.basis 0).numFunctions
+            (C04.fibre r 0 0 i) t
+          = splineVal s (o.basis 0).kn ((o.basis 0).order - 1) (o.basis 0).numFunctions
+              (C04.fibre o 0 0 i) t :=
+  split_append_curve h h1 hper hq htol k hk hcont
+
 /-- **Subdivide**: the indices `_splitvector(len, parts)` picks from the `len ≥ 1` distinct knots
 are valid indices, non-decreasing, and strictly increasing except for leading repetitions of `0`
-(the start of the domain, which `split` skips) — so `subdivide` hands `split` an increasing set of
-knot values and `C07_split_open` applies. -/
+(the start of the domain, which `split` skips) — so `subdivide` hands `split` a non-decreasing list
+of knot values of the direction.  This is the index arithmetic of `_splitvector` only: the model
+function `subdivide` mirrors the code (including its failure for a periodic direction with a single
+split point, where `split` returns an object and `new_results += <object>` raises) and is compared
+with the code by the C07 check; there is no theorem about `subdivide` as a whole. -/
 theorem C07_subdivide (len parts : ℕ) (hlen : 1 ≤ len) :
     (splitVector len parts).length = parts ∧
     (∀ i (hi : i < (splitVector len parts).length),
@@ -307,3 +439,131 @@ example : (C07_exPer.basis 0).order + 0 ≤ (C07_exPer.basis 0).numFunctions ∧
   · intro i hi
     have hi' : i < 8 := hi
     interval_cases i <;> norm_num [Obj.basis, C07_exPer, Basis.kn]
+
+/-- Quadratic curve with an interior knot, for `C07_split_open_obj`. -/
+def C07_exOpenCurve : Obj ℚ :=
+  { bases := #[⟨3, #[0, 0, 0, 1, 2, 2, 2], -1⟩],
+    cps := { shape := [4, 2], data := #[0, 0, 1, 2, 3, 1, 4, -1] }, rational := false }
+
+theorem C07_exOpenCurve_wf : C07_exOpenCurve.WellFormed := (Obj.wfB_iff _).1 (by decide +kernel)
+
+/-- Every hypothesis of `C07_split_open_obj` for the split values `[1/2, 1]` (between knots and at
+a knot), `tol = 10⁻¹⁰`. -/
+theorem C07_exOpenCurve_splitOK :
+    SplitOK (C07_exOpenCurve.basis 0) (1 / 10 ^ 10) [1/2, 1] ∧ [(1/2 : ℚ), 1].Pairwise (· < ·) := by
+  constructor
+  · intro x hx
+    simp only [List.mem_cons, List.not_mem_nil, or_false] at hx
+    rcases hx with rfl | rfl
+    · refine ⟨by norm_num [Obj.basis, C07_exOpenCurve, Basis.start, Basis.stop, Basis.kn], ?_, ?_⟩
+      · intro i hi
+        have hi' : i < 7 := hi
+        interval_cases i <;> norm_num [Obj.basis, C07_exOpenCurve, Basis.kn]
+      · intro i hi
+        have hi' : i < 7 := hi
+        interval_cases i <;> norm_num [Obj.basis, C07_exOpenCurve, Basis.kn]
+    · refine ⟨by norm_num [Obj.basis, C07_exOpenCurve, Basis.start, Basis.stop, Basis.kn], ?_, ?_⟩
+      · intro i hi
+        have hi' : i < 7 := hi
+        interval_cases i <;> norm_num [Obj.basis, C07_exOpenCurve, Basis.kn]
+      · intro i hi
+        have hi' : i < 7 := hi
+        interval_cases i <;> norm_num [Obj.basis, C07_exOpenCurve, Basis.kn]
+  · refine List.Pairwise.cons ?_ (List.Pairwise.cons (by simp) List.Pairwise.nil)
+    intro a ha
+    simp only [List.mem_cons, List.not_mem_nil, or_false] at ha
+    rw [ha]; norm_num
+
+/-- `C07_split_open_obj` applied to the example: three pieces on `[0,1/2]`, `[1/2,1]`, `[1,2]`. -/
+example : ∃ ps, C07_exOpenCurve.split (1 / 10 ^ 10) [1/2, 1] 0 = .ok (.many ps) ∧ ps.length = 3 := by
+  obtain ⟨ps, h1, h2, _⟩ := C07_split_open_obj C07_exOpenCurve_wf 0 (by decide) (by decide)
+    (by norm_num) [1/2, 1] C07_exOpenCurve_splitOK.1 C07_exOpenCurve_splitOK.2
+  exact ⟨ps, h1, h2⟩
+
+/-- … and what the model returns, by kernel evaluation. -/
+theorem C07_exOpenCurve_split :
+    (match C07_exOpenCurve.split (1 / 10 ^ 10) [1/2, 1] 0 with
+      | .ok (.many ps) => ps.map (fun (o : Obj ℚ) => ((o.basis 0).knots.toList, o.cps.data.toList))
+      | _ => [])
+    = [([0, 0, 0, 1/2, 1/2, 1/2], [0, 0, 1/2, 1, 1, 11/8]),
+       ([1/2, 1/2, 1/2, 1, 1, 1], [1, 11/8, 3/2, 7/4, 2, 3/2]),
+       ([1, 1, 1, 2, 2, 2], [2, 3/2, 3, 1, 4, -1])] := by
+  decide +kernel
+
+/-- The pieces the model returns for `C07_exOpenCurve` split at `[1/2, 1]`. -/
+def C07_exPieces : List (Obj ℚ) :=
+  match C07_exOpenCurve.split (1 / 10 ^ 10) [1/2, 1] 0 with
+  | .ok (.many ps) => ps
+  | _ => []
+
+/-- Every hypothesis of `C07_piece_evaluate_curve` for the first piece (on `[0, 1/2]`) and the
+parameters `[0, 1/4]`: `PieceOK` from `C07_split_open_obj`, admissibility of the parameters for both
+bases by kernel evaluation. -/
+example : (C07_exPieces.getD 0 default).evaluate (1 / 10 ^ 10) [[0, 1/4]] true
+    = C07_exOpenCurve.evaluate (1 / 10 ^ 10) [[0, 1/4]] true := by
+  obtain ⟨ps, h1, _, h3⟩ := C07_split_open_obj C07_exOpenCurve_wf 0 (by decide) (by decide)
+    (by norm_num) [1/2, 1] C07_exOpenCurve_splitOK.1 C07_exOpenCurve_splitOK.2
+  have hps : C07_exPieces = ps := by unfold C07_exPieces; rw [h1]
+  cases ps with
+  | nil => cases h3
+  | cons pc rest =>
+    have hP := (List.forall₂_cons.1 h3).1
+    have hpc : C07_exPieces.getD 0 default = pc := by rw [hps]; rfl
+    have hadm : ∀ u ∈ [(0 : ℚ), 1/4], (C07_exOpenCurve.basis 0).Admissible (1 / 10 ^ 10) u ∧
+        ((C07_exPieces.getD 0 default).basis 0).Admissible (1 / 10 ^ 10) u := by
+      unfold Basis.Admissible Basis.ExactAt
+      decide +kernel
+    rw [hpc] at hadm ⊢
+    refine C07_piece_evaluate_curve (b1 := C07_exOpenCurve.basis 0) (nc := 2) rfl
+      ((Basis.validB_iff _).1 (by decide +kernel)) (by decide) (by decide) (by decide) hP
+      ?_ (by norm_num) (fun u hu => (hadm u hu).1) (fun u hu => (hadm u hu).2) ?_
+    · norm_num [Obj.basis, C07_exOpenCurve, Basis.stop, Basis.kn]
+    · intro u hu
+      simp only [List.mem_cons, List.not_mem_nil, or_false] at hu
+      rcases hu with rfl | rfl <;>
+        norm_num [Obj.basis, C07_exOpenCurve, Basis.start, Basis.stop, Basis.kn]
+
+/-- Every hypothesis of `C07_split_append_curve` for `C07_exOpenCurve` and the split value `1` (a
+simple knot of the quadratic: multiplicity `1 ≤ 2`). -/
+theorem C07_exOpenCurve_split_append :
+    SplitOK (C07_exOpenCurve.basis 0) (1 / 10 ^ 10) [1] ∧
+    (C07_exOpenCurve.basis 0).mult 1 ≤ (C07_exOpenCurve.basis 0).order - 1 := by
+  constructor
+  · intro x hx
+    exact C07_exOpenCurve_splitOK.1 x (by simp only [List.mem_singleton] at hx; rw [hx]; simp)
+  · decide +kernel
+
+example : ∃ p0 p1 r, C07_exOpenCurve.split (1 / 10 ^ 10) [1] 0 = .ok (.many [p0, p1]) ∧
+    p0.appendCurve p1 (1 / 10 ^ 10) = .ok (some r) ∧ r.WellFormed := by
+  obtain ⟨p0, p1, r, h1, h2, h3, _⟩ := C07_split_append_curve C07_exOpenCurve_wf (by decide)
+    (by decide) (by decide) (by norm_num) 1 C07_exOpenCurve_split_append.1
+    C07_exOpenCurve_split_append.2
+  exact ⟨p0, p1, r, h1, h2, h3⟩
+
+/-- The two pieces of `C07_exOpenCurve` at `1`, as literal objects, for `C07_append_obj`. -/
+def C07_exPiece0 : Obj ℚ :=
+  { bases := #[⟨3, #[0, 0, 0, 1, 1, 1], -1⟩],
+    cps := { shape := [3, 2], data := #[0, 0, 1, 2, 2, 3/2] }, rational := false }
+def C07_exPiece1 : Obj ℚ :=
+  { bases := #[⟨3, #[1, 1, 1, 2, 2, 2], -1⟩],
+    cps := { shape := [3, 2], data := #[2, 3/2, 3, 1, 4, -1] }, rational := false }
+
+/-- Every hypothesis of `C07_append_obj` for these two curves, and the model's result. -/
+example : ∃ r, C07_exPiece0.appendCurve C07_exPiece1 (1 / 10 ^ 10) = .ok (some r) ∧ r.WellFormed := by
+  obtain ⟨r, h1, h2, _⟩ := C07_append_obj (a := C07_exPiece0) (c := C07_exPiece1)
+    ((Obj.wfB_iff _).1 (by decide +kernel)) ((Obj.wfB_iff _).1 (by decide +kernel))
+    (by decide) (by decide) (by decide) (by decide) (by decide) (by decide +kernel) (by decide)
+    (by decide) (by decide +kernel) (by decide +kernel)
+    (by
+      intro i hi
+      have hi' : i < 2 := hi
+      interval_cases i <;> decide +kernel)
+    (tol := 1 / 10 ^ 10) (by norm_num)
+  exact ⟨r, h1, h2⟩
+
+theorem C07_exPiece_append :
+    (match C07_exPiece0.appendCurve C07_exPiece1 (1 / 10 ^ 10) with
+      | .ok (some r) => ((r.basis 0).knots.toList, r.cps.shape, r.cps.data.toList)
+      | _ => ([], [], []))
+    = ([0, 0, 0, 1, 1, 2, 2, 2], [5, 2], [0, 0, 1, 2, 2, 3/2, 3, 1, 4, -1]) := by
+  decide +kernel
